@@ -137,6 +137,46 @@ pub(crate) fn model_str_width(s: &str) -> usize {
 pub(crate) fn stub_str_width(s: &str) -> usize {
     model_str_width(s)
 }
+
+/// Byte-level version of the width model (no `chars()` decoding): the width
+/// of a well-formed UTF-8 string is the sum over lead bytes.  Agrees with
+/// `model_str_width` on the harness alphabet (checked by the self-test).
+pub(crate) fn stub_str_width_bytes(s: &str) -> usize {
+    let b = s.as_bytes();
+    let n = b.len();
+    let mut w = 0usize;
+    let mut i = 0usize;
+    while i < n {
+        let c = b[i];
+        if c < 0x80 {
+            if c >= 0x20 && c != 0x7f {
+                w += 1;
+            }
+            i += 1;
+        } else if c < 0xe0 {
+            // 2-byte: U+0080..U+07FF; combining marks U+0300..U+036F are CC 80..CD AF
+            let d = if i + 1 < n { b[i + 1] } else { 0 };
+            let zero = (c == 0xcc) || (c == 0xcd && d <= 0xaf) || (c == 0xc2 && d < 0xa0);
+            if !zero {
+                w += 1;
+            }
+            i += 2;
+        } else if c < 0xf0 {
+            // 3-byte: wide for U+3000..U+303E, U+4E00..U+9FFF, U+FF01..U+FF60
+            let d = if i + 1 < n { b[i + 1] } else { 0 };
+            let e = if i + 2 < n { b[i + 2] } else { 0 };
+            let cp = (((c & 0x0f) as u32) << 12) | (((d & 0x3f) as u32) << 6) | ((e & 0x3f) as u32);
+            let wide = (0x4e00..=0x9fff).contains(&cp) || (0xff01..=0xff60).contains(&cp) || (0x3000..=0x303e).contains(&cp);
+            w += if wide { 2 } else { 1 };
+            i += 3;
+        } else {
+            w += 1;
+            i += 4;
+        }
+    }
+    w
+}
+
 /// Stub with the signature of `unicode_width::tables::single_char_width`.
 pub(crate) fn stub_single_char_width(c: char) -> Option<usize> {
     model_char_width(c)
@@ -180,6 +220,7 @@ pub(crate) fn width_model_selftest() {
                     "width model disagrees on {:?}",
                     s
                 );
+                assert_eq!(model_str_width(&s), stub_str_width_bytes(&s), "byte-level model disagrees on {:?}", s);
                 n += 1;
             }
         }
